@@ -1,10 +1,9 @@
 /* jmp_model.h - CBMC has no non-local jump.  In the symbolic build of src/config.c
  * (tu/config_tu.c with VP_MODEL_LONGJMP) setjmp() returns 0 and longjmp(parse->env, code)
  * runs vp_longjmp(), which (1) records the error code, (2) lets the harness check its
- * error-path obligations (vp_on_parse_error), (3) executes the tail of conf_read() - the two
- * statements after its switch: release the scratch tree and the file buffer - and (4) ends the
- * path.  The error branches of conf_read()'s switch only write a log line.
- * gen_shim.py checks at build time that conf_read() still ends with exactly those statements.
+ * error-path obligations (vp_on_parse_error), (3) executes the rest of conf_read() - the
+ * `switch (res)` statement with res = code (its error branch) and the statements after it, both
+ * extracted from /repo/src/config.c by gen_shim.py on every run - and (4) ends the path.
  * Native replay uses the real setjmp/longjmp. */
 #ifndef VP_JMP_MODEL_H
 #define VP_JMP_MODEL_H
